@@ -179,6 +179,24 @@ func (ex *Exec) step(st *State, in ssa.Instruction) {
 			for _, b := range t.Bindings {
 				ds = append(ds, fmt.Sprintf("(= o %s)", ex.val(st, b).S))
 			}
+			// objects the closure's own contract names in its assigns clause (maps), as they are now
+			if fc := ex.prog.Contracts[keyOfFunction(fn)]; fc != nil {
+				base := &Env{st: st, cur: st.heap, old: st.heap, ghost: st.ghost, ghost0: st.ghost, allocLo: st.alloc0}
+				fe := ex.closureEnv(st, fc, t.Bindings, base)
+				for _, cl := range fc.Assigns {
+					for _, item := range splitList(cl.Text) {
+						if !strings.HasPrefix(strings.TrimSpace(item), "mapcells(") {
+							continue
+						}
+						for _, ls := range fe.evalAssignsClause(cl) {
+							if strings.HasPrefix(ls.Fam, "MD.") && !ls.Region && ls.Owner == nil {
+								ds = append(ds, fmt.Sprintf("(= o %s)", ls.Obj.S))
+							}
+						}
+						break
+					}
+				}
+			}
 			st.sc.emit("(assert (forall ((o Int)) (! (= (clo.owns %s o) (or %s)) :pattern ((clo.owns %s o)))))", id.S, strings.Join(ds, " "), id.S)
 		}
 		st.vals[t] = id
